@@ -428,6 +428,9 @@ Section Frames.
         | ALog t =>
             run_acts progs rec cx lc0 rest f (clogs ++ [mkLog (self cx) t (thash s) (txindex s) (logsize (dat s))])
               (push (add_log (thash s) (mkLog (self cx) t (thash s) (txindex s) (logsize (dat s)))) s)
+        | ALogT k =>
+            run_acts progs rec cx lc0 rest f (clogs ++ [mkLog (self cx) (tstor (dat s) (self cx) k) (thash s) (txindex s) (logsize (dat s))])
+              (push (add_log (thash s) (mkLog (self cx) (tstor (dat s) (self cx) k) (thash s) (txindex s) (logsize (dat s)))) s)
         | ATstore k v =>
             if static cx then (OErr err_write_protection, [], s)
             else run_acts progs rec cx lc0 rest f clogs (push (set_transient (self cx) k v) s)
@@ -485,6 +488,7 @@ Section Frames.
       { intros Wf. destruct (static cx); auto. cbn in E. unfold refused_static in E. rewrite Wf in E. discriminate. }
       destruct a.
       - eapply STEP; [apply good_set_state; auto | intros St; rewrite NST in St by reflexivity; discriminate | exact H0].
+      - eapply STEP; [apply good_push; auto using add_log_ok, kl_add_log | intros St; rewrite NST in St by reflexivity; discriminate | exact H0].
       - eapply STEP; [apply good_push; auto using add_log_ok, kl_add_log | intros St; rewrite NST in St by reflexivity; discriminate | exact H0].
       - destruct (static cx) eqn:St.
         + inversion H0; subst; split; auto using good_refl, sclause_die.
